@@ -155,7 +155,8 @@ func cmdGen(args map[string]string) {
 	ops := mutOps()
 	// the rule families with many sub-variants get more slots in the round-robin
 	weight := map[string]int{"wrong-literal-kind": 4, "var-incompatible-type": 3, "null-for-non-null": 2,
-		"conflict-different-args": 2, "conflict-different-names": 2, "conflict-different-shapes": 2}
+		"conflict-different-args": 2, "conflict-different-names": 2, "conflict-different-shapes": 2,
+		"var-list-item-nullability": 2, "conflict-object-interface-scopes": 2}
 	for _, o := range mutOps() {
 		for k := 1; k < weight[o.name]; k++ {
 			ops = append(ops, o)
